@@ -1,5 +1,6 @@
 import LettreVerif.Proofs.Client
 import LettreVerif.Proofs.XText
+import LettreVerif.Spec.Dialogue
 /-!
 # C04 — SMTP dialogue is valid and carries the exact envelope, whatever the server says
 
@@ -75,5 +76,16 @@ theorem xtext_valid (v : Bytes) : XTextSpec.decode (XText.xtext v) = some v :=
 /-- non-vacuity: a value with HTAB, `+`, `=`, space and DEL -/
 example : XText.xtext [97, 9, 43, 61, 32, 127, 98] =
     str "a+09+2B+3D+20+7Fb" := by decide
+
+/-! ### recorded findings, exhibited by the model -/
+
+/-- finding `hello-domain-crlf`: a CR LF in `ClientId::Domain` is written into the EHLO line as it is — the line is no
+    longer a single command line -/
+theorem ehlo_domain_crlf_witness :
+    Dialogue.singleLine (ehloLine (str "a\r\nRSET")) = false := by decide
+
+/-- finding `param-keyword-crlf`: the keyword of a custom MAIL / RCPT parameter is written as it is -/
+theorem param_keyword_crlf_witness :
+    Dialogue.singleLine (str "MAIL FROM:<> " ++ XText.param (str "X\r\nRSET") none ++ CRLF) = false := by decide
 
 end LV.C04
